@@ -289,6 +289,9 @@ def new_delete(s, st):
     s, k = re.subn(r'\bauto\s*\*?\s*(const\s+)?(\w+)\s*=\s*new\s+(\w+)\s*\{', rep_new, s)
     if k:
         s = re.sub(r'(\w+_new\([^;]*)\};', r'\1);', s)
+    # `new T(args)` as an expression (mem-initialiser lists): T_new(args)
+    s, k3 = re.subn(r'\bnew\s+(\w+)\s*\(', r'\1_new(', s)
+    k += k3
     s, k2 = re.subn(r'\bdelete\s+([^;\[\]]+);', r'OBJ_DELETE(\1);', s)
     bump(st, 'new', k)
     bump(st, 'delete', k2)
